@@ -310,13 +310,27 @@ func runCase(r *evid.Run, dir string, cs int64, idx int) {
 		}
 	}
 	var err2 error
-	select {
-	case err2 = <-openDone:
-	case <-time.After(120 * time.Second):
-		errLines := logTail()
-		r.Violation("c16:recovery-never-completes", desc+": the wallet keeps failing to synchronise (120 s of 5 ms retries); last errors: "+errLines, "recovery", cs, map[string]any{"case": desc, "chain": plog, "errors": errLines})
-		h.Chain.Shutdown()
-		return
+	deadline := time.After(300 * time.Second)
+wait:
+	for {
+		select {
+		case err2 = <-openDone:
+			break wait
+		case <-time.After(50 * time.Millisecond):
+			// decided on logical steps, not time: one synchronisation attempt asks the
+			// backend for its best block a handful of times; thousands of such calls
+			// mean the wallet is failing and retrying the sync over and over
+			if n := ch.BestCalls(); n > 2000 {
+				errLines := logTail()
+				r.Violation("c16:recovery-never-completes", fmt.Sprintf("%s: the wallet keeps failing to synchronise and retrying (%d GetBestBlock calls so far); recent errors in this process: %s", desc, n, errLines), "recovery", cs, map[string]any{"case": desc, "chain": plog, "errors": errLines})
+				h.Chain.Shutdown()
+				return
+			}
+		case <-deadline:
+			r.Inconclusive("recovery watchdog (300 s): " + desc)
+			h.Chain.Shutdown()
+			return
+		}
 	}
 	if err := err2; err != nil {
 		if errors.Is(err, wh.ErrNotSynced) {
